@@ -134,7 +134,7 @@ func (en *Engine) verifyFunc(fn *ssa.Function, ct *FuncContract, findings ...*Fi
 		ctx.binds = f.lets
 	}
 	en.assumeGlobalAxioms(f, ctx)
-	for _, rq := range ct.Requires {
+	for _, rq := range en.activeClauses(ct.Requires, ct) {
 		vc.assume(ctx.evalBool(rq.E))
 	}
 	vc.topFrame = f
@@ -161,7 +161,7 @@ func (en *Engine) verifyFunc(fn *ssa.Function, ct *FuncContract, findings ...*Fi
 		}
 		post := &SpecCtx{f: f, fn: fn, params: f.params, heap: r.heap, old: f.entry, binds: f.lets, result: &res, pkg: pkgOf(fn)}
 		conds := f.splitConds(r.block)
-		for k, e := range ct.Ensures {
+		for k, e := range en.activeClauses(ct.Ensures, ct) {
 			name := fmt.Sprintf("post.%s@return#%d", clauseName(e, k), ri+1)
 			goal := post.evalBool(e.E)
 			if len(conds) <= 1 {
